@@ -14,7 +14,7 @@ ASSUMPTIONS = ["10-bit input is supplied in the documented unpacked format (16-b
 
 
 def variants(tier):
-    return ["asan"]
+    return ["asan", "rel"]
 
 
 def budget(tier):
@@ -42,16 +42,20 @@ def strategy(tier):
             vs.append(v)
         case = gens.case_from(c, n, tp, cnt)
         case["subs"] = vs
+        # one case in three runs on the ASan build (reads of freed / scribbled caller memory become reports); the others on the release build,
+        # which is several times faster, for the byte-identity oracle
+        case["asan"] = draw(st.integers(0, 2)) == 0
         return case
     return s()
 
 
 def run_case(case, tier):
-    base = {k: v for k, v in case.items() if k != "subs"}
+    base = {k: v for k, v in case.items() if k not in ("subs", "asan")}
+    variant = "asan" if case.get("asan", True) else "rel"
     vs = [("tight", base)]
     for i, v in enumerate(case["subs"]):
         vs.append(("v%d_%s" % (i, "+".join(sorted(v))), dict(base, **v)))
-    viol, statuses, results = differential(base, vs, "submission", pid=ID, variant="asan", timeout=400)
+    viol, statuses, results = differential(base, vs, "submission", pid=ID, variant=variant, timeout=400)
     try:
         # sanitizer reports in a variant that are absent in the tight run are this property's business
         base_keys = {(x["kind"], x["frame"]) for x in results[0][1].san}
